@@ -195,7 +195,9 @@ def concretize(rec, seed=0):
             # (a quoted name is a name, whatever characters it has: it does not exist)
             return pick(salt, ['nonexistent.case', 'a-directory',
                                ("'nonexistent-dir/%s'" if brackets else 'nonexistent-dir/%s') % casename(1),
-                               "'gone[1].case'", '"*.nothing"'])
+                               "'gone[1].case'", '"*.nothing"',
+                               # one name per line: a quoted name followed by more is no reference at all
+                               "'%s' %s" % (casename(1), casename(1)), '"%s" x' % casename(1)])
         raise ValueError(k)
 
     files = []   # (relative path, text) in creation order
